@@ -26,6 +26,10 @@ impl<'a> Paseto<'a, V3, Public> {
 
         let verifying_key =
             VerifyingKey::from_sec1_bytes(compressed_public_key.as_ref()).map_err(|_| PasetoError::InvalidKey)?;
+        //a payload shorter than the signature cannot be a token
+        if decoded_payload.len() < 96 {
+            return Err(PasetoError::IncorrectSize);
+        }
         let msg = decoded_payload[..(decoded_payload.len() - 96)].as_ref();
         let sig = decoded_payload[msg.len()..msg.len() + 96].as_ref();
 
